@@ -21,40 +21,40 @@ Open Scope N_scope.
 (* full statement of the value clause, without the codec hypotheses (kept visible; decided per sampled call by the
    correspondence, not proved): a successful implementation's results arrive exactly, for every schema environment *)
 Definition C01_transparent_ok_statement : Prop :=
-  forall e sid_req sid_rsp max impl (Pc Ps : pfilters ev unit) i f args o id sv t ret outs rc rs maps,
+  forall e sid_req sid_rsp max impl (Pc Ps : pfilters ev unit) i f args o id sv t ret outs rc rs,
     find_fn i (fs_name f) = Some f ->
     impl (fs_name f) (ins_of f args) (ctx_of o) (status_of o) = IOk ret outs rc rs ->
-    ret_shape f ret -> maps_after o rc rs = Some maps ->
-    fst (call e sid_req sid_rsp max impl (filters_of inv_res Pc) (filters_of disp_res Ps) i f args o false id sv t) = COk ret outs maps.
+    ret_shape f ret ->
+    fst (call e sid_req sid_rsp max impl (filters_of inv_res Pc) (filters_of disp_res Ps) i f args o false id sv t) = COk ret outs (maps_after o rc rs).
 
-(* success: the call site gets exactly the implementation's return value and out parameters, the caller's maps become
-   the response context/status; the implementation is called exactly once, with exactly the caller's in arguments,
-   context and status; each selected filter runs once, in registration order; one reply *)
-Theorem C01_transparent_ok_partial : forall e sid_req sid_rsp max impl (Pc Ps : pfilters ev unit) i f args o id sv t ret outs rc rs maps,
+(* success: the call site gets exactly the implementation's return value and out parameters, each map the caller
+   passed holds exactly the response context/status afterwards (a nil map stays nil); the implementation is called
+   exactly once, with exactly the caller's in arguments, context and status; each selected filter runs once, in
+   registration order; one reply *)
+Theorem C01_transparent_ok_partial : forall e sid_req sid_rsp max impl (Pc Ps : pfilters ev unit) i f args o id sv t ret outs rc rs,
     let q := mkreq e f args o false id sv t in
     find_fn i (fs_name f) = Some f ->
     wire_ok_req e sid_req max q -> args_roundtrip e f args ->
     impl (fs_name f) (ins_of f args) (ctx_of o) (status_of o) = IOk ret outs rc rs ->
     ret_shape f ret -> results_roundtrip e f args (results ret outs) ->
     wire_ok_rsp e sid_rsp max (ok_reply e f q ret outs rc rs) ->
-    maps_after o rc rs = Some maps ->
     call e sid_req sid_rsp max impl (filters_of inv_res Pc) (filters_of disp_res Ps) i f args o false id sv t =
-    (COk ret outs maps,
+    (COk ret outs (maps_after o rc rs),
      before Pc ++ [EInvoke] ++ before Ps ++ [EDispatch; EImpl (fs_name f) (ins_of f args) (ctx_of o) (status_of o)]
        ++ after Ps ++ [EReply] ++ after Pc).
 Proof. exact EndToEndProofs.transparent_ok. Qed.
 
-(* failure: error code and message arrive exactly (code 0 is the protocol's success marker; the empty message is
-   the open defect below) *)
+(* failure: the error code arrives exactly, and so does the message; an empty message is replaced by a
+   framework-made text ([err_seen]). Code 0 is the protocol's success marker. *)
 Theorem C01_transparent_err_partial : forall e sid_req sid_rsp max impl (Pc Ps : pfilters ev unit) i f args o id sv t c m,
     let q := mkreq e f args o false id sv t in
     find_fn i (fs_name f) = Some f ->
     wire_ok_req e sid_req max q -> args_roundtrip e f args ->
     impl (fs_name f) (ins_of f args) (ctx_of o) (status_of o) = IFail c m ->
-    c <> 0%Z -> m <> [] ->
+    c <> 0%Z ->
     wire_ok_rsp e sid_rsp max (err_reply q c m) ->
     call e sid_req sid_rsp max impl (filters_of inv_res Pc) (filters_of disp_res Ps) i f args o false id sv t =
-    (CErr c m false,
+    (err_seen c m,
      before Pc ++ [EInvoke] ++ before Ps ++ [EDispatch; EImpl (fs_name f) (ins_of f args) (ctx_of o) (status_of o)]
        ++ after Ps ++ [EReply] ++ after Pc).
 Proof. exact EndToEndProofs.transparent_err. Qed.
@@ -120,25 +120,6 @@ Theorem C01_concurrent_partial : forall e sid_req sid_rsp max impl (Ps : pfilter
     forall q, In q qs -> client_conn e sid_rsp max chunks_p (q_id q) = srv_reply e impl i q.
 Proof. exact EndToEndConc.concurrent. Qed.
 
-(* the two open defects are outcomes of the model (known findings; see known_findings.d/C01.json) *)
-Theorem C01_empty_message_refuted : forall e sid_req sid_rsp max impl (Pc Ps : pfilters ev unit) i f args o id sv t c,
-    let q := mkreq e f args o false id sv t in
-    find_fn i (fs_name f) = Some f -> wire_ok_req e sid_req max q -> args_roundtrip e f args ->
-    impl (fs_name f) (ins_of f args) (ctx_of o) (status_of o) = IFail c [] -> c <> 0%Z ->
-    wire_ok_rsp e sid_rsp max (err_reply q c []) ->
-    fst (call e sid_req sid_rsp max impl (filters_of inv_res Pc) (filters_of disp_res Ps) i f args o false id sv t) = CErr 1 sys_msg true.
-Proof. exact EndToEndProofs.empty_message_maps_to_code_1. Qed.
-
-Theorem C01_nil_context_map_refuted : forall e sid_req sid_rsp max impl (Pc Ps : pfilters ev unit) i f args id sv t ret outs kv rc rs,
-    let o := [None] in
-    let q := mkreq e f args o false id sv t in
-    find_fn i (fs_name f) = Some f -> wire_ok_req e sid_req max q -> args_roundtrip e f args ->
-    impl (fs_name f) (ins_of f args) (ctx_of o) (status_of o) = IOk ret outs (kv :: rc) rs ->
-    results_roundtrip e f args (results ret outs) ->
-    wire_ok_rsp e sid_rsp max (ok_reply e f q ret outs (kv :: rc) rs) ->
-    fst (call e sid_req sid_rsp max impl (filters_of inv_res Pc) (filters_of disp_res Ps) i f args o false id sv t) = CPanic.
-Proof. exact EndToEndProofs.nil_context_map_panics. Qed.
-
 Print Assumptions C01_transparent_ok_partial.
 Print Assumptions C01_transparent_err_partial.
 Print Assumptions C01_oneway_partial.
@@ -149,5 +130,3 @@ Print Assumptions C01_filters_order_after.
 Print Assumptions C01_filters_once.
 Print Assumptions C01_filters_run.
 Print Assumptions C01_concurrent_partial.
-Print Assumptions C01_empty_message_refuted.
-Print Assumptions C01_nil_context_map_refuted.
